@@ -209,6 +209,8 @@ func init() {
 		// up to length 7, every length with all tails, maps built from sources (same driver as C17)
 		args := bulkBuiltArgs()
 		r.RunTaskGroup("bulk-built arrays and maps (structure)", "c17", args)
+		// a removal that makes a leaf GROW (collision group collapsing) while the index root is full
+		r.RunTaskGroup("full index root + collapsing collision group in a filled leaf (every position x 3 sizes x either member)", "rootfull", rootFullArgs(r.Thorough()))
 		sweepSlabSizes(r)
 	}})
 	RegisterCheck(&CheckDef{ID: "C06", Level: "model_checking", Run: func(r *Run) {
